@@ -25,15 +25,20 @@ try:
 finally:
     sys.argv = _argv
 import numth_oracle as orc  # noqa: E402
+import py2lean  # noqa: E402
 
 LEVEL = 'proof'
-LEAN_MODULES = ['MpycV.Props.C25']
-LEAN_NAMESPACES = ['MpycV.C25']
+LEAN_MODULES = ['MpycV.Props.C25', 'MpycV.PropsGen.C25Src']
+LEAN_NAMESPACES = ['MpycV.C25', 'MpycV.C25Src']
 REQUIRED_THEOREMS = [
     'is_prime_no_false_negative', 'is_prime_trial_division_exact', 'is_prime_partial',
     'next_prime_spec', 'prev_prime_spec', 'invert_spec', 'gcdext_bezout', 'gcdext_normalised', 'jacobi_eq', 'legendre_eq',
     'kronecker_eq', 'isqrt_spec', 'iroot_spec', 'is_square_spec', 'factor_prime_power_sound',
     'factor_prime_power_complete', 'factor_prime_power_iff', 'ratrec_terminates',
+    # source tie (PropsGen/C25Src.lean): definitions generated from the current gmpy.py = hand-written model
+    'isqrt_src_eq', 'is_square_src_eq', 'iroot_src_eq', 'gcdext_src_eq', 'invert_src_eq', 'jacobi_src_eq',
+    'legendre_src_eq', 'kronecker_src_eq', 'next_prime_src_eq', 'prev_prime_src_eq', 'ratrec_src_eq',
+    'factor_prime_power_src_eq',
     'ratrec_sound', 'powMod_eq',
 ]
 RULE = ('exhaustive (thorough tier; quick tier bounds in brackets): is_prime for all x in [-50, 10^5], '
@@ -498,9 +503,88 @@ def run(ctx):
     ctx.note('observation (not a violation): ratrec(x, y, None, 0) raises ZeroDivisionError rather than ValueError')
 
 
+GEN_FILE = os.path.join(common.LEAN_DIR, 'MpycV', 'Generated', 'GmpySrc.lean')
+MIRROR_FILE = os.path.join(common.LEAN_DIR, 'MpycV', 'Lemmas', 'NumThSrcMirror.lean')
+GMPY_SRC = os.path.join(repo_path.REPO, 'mpyc', 'gmpy.py')
+# who is affected when a stub changes (callers in the translated source)
+DEPENDENTS = {'jacobi': ['legendre', 'kronecker'], 'isqrt': ['is_square', 'ratrec', 'factor_prime_power'],
+              'is_square': ['factor_prime_power'], 'iroot': ['factor_prime_power'],
+              'next_prime': ['factor_prime_power'], 'is_prime': ['next_prime', 'prev_prime', 'factor_prime_power']}
+
+
+def _translate_current():
+    try:
+        text = open(GMPY_SRC).read()
+    except OSError as exc:
+        text = ''
+        return py2lean.translate_source(text)[0], {'*': f'cannot read {GMPY_SRC}: {exc}'}
+    return py2lean.translate_source(text)
+
+
+def generate(ctx):
+    """source translator: current mpyc/gmpy.py -> lean/MpycV/Generated/GmpySrc.lean (deterministic)"""
+    text, problems = _translate_current()
+    os.makedirs(os.path.dirname(GEN_FILE), exist_ok=True)
+    old = open(GEN_FILE).read() if os.path.exists(GEN_FILE) else None
+    if old != text:
+        tmp = GEN_FILE + f'.tmp{os.getpid()}'
+        with open(tmp, 'w') as f:
+            f.write(text)
+        os.replace(tmp, GEN_FILE)
+    for fn, msg in problems.items():
+        ctx.note(f'py2lean: {fn} not translated: {msg}')
+    changed = changed_functions(text)
+    if changed:
+        ctx.note('py2lean: translated text differs from the pinned mirror for: ' + ', '.join(changed))
+    ctx.count('py2lean/functions translated', len(py2lean.ORDER) - len([k for k in problems if k != '*']))
+
+
+def _blocks(text):
+    """split a generated file into {function: text of its definitions}"""
+    out = {}
+    cur = None
+    for ln in text.replace('MpycV.GmpyMirror', 'MpycV.GmpySrc').split('\n'):
+        if ln.startswith('-- ≙ gmpy.py:'):
+            cur = ln.split('`')[1]
+            out[cur] = []
+            continue          # the line number in the header may move without any change of the function
+        if ln.startswith('end MpycV.'):
+            cur = None
+        if cur is not None:
+            out[cur].append(ln)
+    return {k: '\n'.join(v).strip() for k, v in out.items()}
+
+
+def changed_functions(text=None):
+    """functions whose translation differs textually from the mirror the bridge lemmas are proved for"""
+    if text is None:
+        text = _translate_current()[0]
+    try:
+        mirror = _blocks(open(MIRROR_FILE).read())
+    except OSError:
+        return list(py2lean.ORDER)
+    cur = _blocks(text)
+    return [fn for fn in py2lean.ORDER if cur.get(fn) != mirror.get(fn)]
+
+
 def search(ctx):
-    """bigger oracle-only sweep on the real code (called when proof or correspondence broke)"""
+    """bigger oracle-only sweep on the real code (called when proof or correspondence broke); concentrates on the stubs
+    whose translation changed (and their callers) when the break comes from the source tie"""
     ctx.tier = 'thorough'
+    focus = set()
+    for fn in changed_functions():
+        focus.add(fn)
+        focus.update(DEPENDENTS.get(fn, []))
+    if focus:
+        ctx.note('search focused on: ' + ', '.join(sorted(focus)))
+        cases = [c for c in gen_exhaustive(ctx) if c[0] in focus]
+        evaluate(ctx, cases, 'search-focus-exhaustive', corr=False)
+        for k in range(6):
+            if ctx.violations:
+                return
+            ctx.seed = f'{ctx.seed}-s{k}'
+            evaluate(ctx, [c for c in gen_random(ctx) if c[0] in focus], f'search-focus-random-{k}', corr=False)
+        return
     evaluate(ctx, gen_exhaustive(ctx), 'search-exhaustive', corr=False)
     for k in range(3):
         ctx.seed = f'{ctx.seed}-s{k}'
